@@ -417,9 +417,6 @@ func readerScenario(s *Sim, params map[string]string) {
 				if err == nil {
 					st.checkDelivered(m, inv)
 					s.Count("ops")
-				} else if errors.Is(err, io.EOF) {
-					s.Fail("C09", "R3-eof-before-close", "FetchMessage returned io.EOF on an open reader")
-					return
 				} else {
 					s.Count("fetch-error")
 				}
